@@ -644,6 +644,31 @@ func (s *levelsController) checkOverlap(tables []*table.Table, lev int) bool {
 	return false
 }
 
+// overlapsPassedOver checks the tables which a read consults after the inputs of this
+// compaction, without them being part of it or of the levels below nextLevel (see
+// checkOverlap for those). They can hold older versions of the keys being compacted, in
+// which case a deletion marker has to be kept:
+//   - An L0->L0 compaction picks only some of the L0 tables; the ones it leaves out can be
+//     older than the ones it picks.
+//   - An L0->Lbase compaction passes over the levels between L0 and the base level. They are
+//     expected to be empty, but the base level is chosen by size, so they need not be.
+func (s *levelsController) overlapsPassedOver(cd compactDef) bool {
+	if cd.thisLevel.level == 0 && cd.nextLevel.level == 0 {
+		return true
+	}
+	kr := getKeyRange(cd.allTables()...)
+	for lev := cd.thisLevel.level + 1; lev < cd.nextLevel.level; lev++ {
+		lh := s.levels[lev]
+		lh.RLock()
+		left, right := lh.overlappingTables(levelHandlerRLocked{}, kr)
+		lh.RUnlock()
+		if right-left > 0 {
+			return true
+		}
+	}
+	return false
+}
+
 // subcompact runs a single sub-compaction, iterating over the specified key-range only.
 //
 // We use splits to do a single compaction concurrently. If we have >= 3 tables
@@ -656,7 +681,8 @@ func (s *levelsController) subcompact(it y.Iterator, kr keyRange, cd compactDef,
 
 	// Check overlap of the top level with the levels which are not being
 	// compacted in this compaction.
-	hasOverlap := s.checkOverlap(cd.allTables(), cd.nextLevel.level+1)
+	hasOverlap := s.checkOverlap(cd.allTables(), cd.nextLevel.level+1) ||
+		s.overlapsPassedOver(cd)
 
 	// Pick a discard ts, so we can discard versions below this ts. We should
 	// never discard any versions starting from above this timestamp, because
